@@ -502,9 +502,12 @@ def evaluate__ceiling_and_floor_functions(self: XPathFunction, context: ta.Conte
         context = self.context
 
     arg = self.get_argument(context)
+    if isinstance(arg, XPathNode) and not self.parser.compatibility_mode:
+        arg = self.data_value(arg)  # function conversion rules: the argument is atomized
+
     if arg is None:
         return math.nan if self.parser.version == '1.0' else []
-    elif isinstance(arg, XPathNode) or self.parser.compatibility_mode:
+    elif self.parser.compatibility_mode:
         arg = self.number_value(arg)
     elif isinstance(arg, UntypedAtomic):
         arg = self.cast_to_double(arg.value)  # function conversion rules: untyped -> xs:double
@@ -535,9 +538,12 @@ def evaluate__round(self: XPathFunction, context: ta.ContextType = None) -> ta.O
         context = self.context
 
     arg = self.get_argument(context)
+    if isinstance(arg, XPathNode) and not self.parser.compatibility_mode:
+        arg = self.data_value(arg)  # function conversion rules: the argument is atomized
+
     if arg is None:
         return math.nan if self.parser.version == '1.0' else []
-    elif isinstance(arg, XPathNode) or self.parser.compatibility_mode:
+    elif self.parser.compatibility_mode:
         arg = self.number_value(arg)
     elif isinstance(arg, UntypedAtomic):
         arg = self.cast_to_double(arg.value)  # function conversion rules: untyped -> xs:double
